@@ -194,6 +194,83 @@ func appNames(v any, acc map[string]bool) {
 	}
 }
 
+// decoyMark is the content of the decoy files: regular files placed in the working directory so that a value with pattern
+// characters (* ? [..]) that reaches the shell unquoted EXPANDS to something else (in an empty directory it would stay as it is
+// and the omission would be invisible). An untouched decoy is not part of the observed file system; a changed one is.
+const decoyMark = "vh-decoy\n"
+
+// allStrings collects every string value of a case (literals, stdin lines, file contents).
+func allStrings(v any, acc map[string]bool) {
+	switch x := v.(type) {
+	case string:
+		acc[x] = true
+	case map[string]any:
+		for _, y := range x {
+			allStrings(y, acc)
+		}
+	case []any:
+		for _, y := range x {
+			allStrings(y, acc)
+		}
+	}
+}
+
+// decoyFor returns a file name the pattern word w matches (and that differs from w), or "".
+func decoyFor(w string) string {
+	var b strings.Builder
+	for i := 0; i < len(w); i++ {
+		switch c := w[i]; c {
+		case '*':
+			b.WriteString("Gq")
+		case '?':
+			b.WriteByte('G')
+		case '[':
+			j := strings.IndexByte(w[i+1:], ']')
+			if j < 1 || w[i+1] == '!' || w[i+1] == '^' {
+				return ""
+			}
+			b.WriteByte(w[i+1])
+			i += j + 1
+		case '/', 0, '\\':
+			return ""
+		default:
+			b.WriteByte(c)
+		}
+	}
+	if b.String() == w || b.Len() == 0 || b.Len() > 60 || b.String() == "." || b.String() == ".." {
+		return ""
+	}
+	return b.String()
+}
+
+func installDecoys(prog N, wd string) {
+	strs := map[string]bool{}
+	allStrings(prog, strs)
+	names := map[string]bool{"Gq": true}
+	for s := range strs {
+		if !strings.ContainsAny(s, "*?[") || len(s) > 80 {
+			continue
+		}
+		for _, w := range strings.FieldsFunc(s, func(r rune) bool { return r == ' ' || r == '\t' || r == '\n' }) {
+			if strings.ContainsAny(w, "*?[") {
+				if d := decoyFor(w); d != "" {
+					names[d] = true
+				}
+			}
+		}
+	}
+	for d := range names {
+		if strs[d] {
+			continue // the program talks about this very name
+		}
+		p := filepath.Join(wd, d)
+		if _, err := os.Lstat(p); err == nil {
+			continue
+		}
+		os.WriteFile(p, []byte(decoyMark), 0o644)
+	}
+}
+
 func snapshot(root string) []fileEnt {
 	ents := []fileEnt{}
 	filepath.Walk(root, func(p string, info os.FileInfo, err error) error {
@@ -202,6 +279,9 @@ func snapshot(root string) []fileEnt {
 		}
 		rel, _ := filepath.Rel(root, p)
 		b, _ := os.ReadFile(p)
+		if string(b) == decoyMark {
+			return nil
+		}
 		ents = append(ents, fileEnt{Path: rel, Content: string(b)})
 		return nil
 	})
@@ -250,6 +330,9 @@ func runBash(c N, dir string, self string, timeout time.Duration) (obs, string, 
 				os.Symlink(self, p)
 			}
 		}
+	}
+	if prog != nil && os.Getenv("VH_NO_DECOYS") == "" {
+		installDecoys(prog, wd)
 	}
 	logf := filepath.Join(dir, "probe.log")
 	cmd := exec.Command("/bin/bash", sf)
